@@ -608,6 +608,44 @@ func ruleC02(w *World) {
 				fmt.Sprintf("len(%s) == len(%s)", hs, msgs))
 			w.check(render(c.Call.Args[0]) == "&"+sig+"[0]", "C02.R2", key+"/arg0", c.Pos(), "signature pointer is &sig[0]", "first argument is not the signature buffer: "+render(c.Call.Args[0]))
 		}
+		// R7: the group count handed to C is the number of entries of the per-group arrays handed with it: either it is
+		// len() of one of them, or it is len(M) of the grouping map and every per-group array receives exactly one
+		// append per iteration of the one `range M` loop (and none elsewhere)
+		w.floor("C02.R7", 4)
+		perGroup := map[string][]int{"bls_verifyPerDistinctMessage": {3, 4}, "bls_verifyPerDistinctKey": {2, 3}}
+		for _, cn := range []string{"bls_verifyPerDistinctMessage", "bls_verifyPerDistinctKey"} {
+			sites := cgoCalls(fn, cn)
+			if len(sites) != 1 {
+				continue
+			}
+			c := sites[0]
+			cnt := stripConv(c.Call.Args[1])
+			var cntOf ssa.Value
+			if cl, ok := cnt.(*ssa.Call); ok {
+				if b, ok := cl.Call.Value.(*ssa.Builtin); ok && b.Name() == "len" {
+					cntOf = cl.Call.Args[0]
+				}
+			}
+			for _, ai := range perGroup[cn] {
+				key := fmt.Sprintf("%s/cgo:%s/group-count:arg%d", fnKey(fn), cn, ai)
+				if ai >= len(c.Call.Args) {
+					w.undecided("C02.R7", key, c.Pos(), "C."+cn+" is called with fewer arguments than the rules know")
+					continue
+				}
+				arr := sliceBaseNoHelper(c.Call.Args[ai])
+				if cntOf == nil {
+					w.viol("C02.R7", key, c.Pos(), "the group count `"+render(cnt)+"` is not the length of a collection: C would walk a number of groups unrelated to the arrays it is given")
+					continue
+				}
+				if render(cntOf) == render(arr) {
+					w.ok("C02.R7", key, c.Pos(), "count is the length of this array")
+					continue
+				}
+				// count is len(M): the array must grow by exactly one per iteration of range M
+				why := w.oneAppendPerRange(arr, cntOf)
+				w.check(why == "", "C02.R7", key, c.Pos(), "one entry is appended per iteration of the loop over `"+render(cntOf)+"`, whose length is the count", "the group count is `"+render(cnt)+"` but `"+shortCond(render(arr))+"` does not hold exactly one entry per element of `"+render(cntOf)+"`: "+why+" — C reads a number of groups different from what the arrays hold (trailing groups ignored, or reads past the arrays)")
+			}
+		}
 		// hashers validated before use
 		for _, ch := range callsTo(fn, "ComputeHash") {
 			recv := render(ch.Common().Value)
@@ -1581,6 +1619,10 @@ func ruleC16(w *World) {
 		w.requireFacts("C16.R3", fnKey(gpop)+"/typeguard", c.(ssa.Instruction), sk+".(*"+a.prT.Obj().Name()+")#1 == true")
 	}
 	w.ruleKmacInitBlock("C16.R2")
+	// R5: the hasher stays keyed with tag‖suite in every state a caller can bring it to (Reset re-absorbs the key block,
+	// ComputeHash re-keys its clone): otherwise two differently keyed hashers coincide after Reset
+	w.floor("C16.R5", 3)
+	w.ruleKmacSequences("C16.R5")
 	// R4: identity key rejected in Verify (shared with C01.R2)
 	sites := cgoCalls(a.verify, "bls_verify")
 	if len(sites) == 1 {
@@ -1655,4 +1697,102 @@ func ruleC17(w *World) {
 			w.viol("C17.R3", fnKey(f)+"/delegation", f.Pos(), "no delegating return")
 		}
 	}
+}
+
+// sliceBaseNoHelper: the slice value behind `&X[0]` / conversions, without looking through helpers
+func sliceBaseNoHelper(v ssa.Value) ssa.Value {
+	for {
+		switch x := v.(type) {
+		case *ssa.IndexAddr:
+			v = x.X
+		case *ssa.ChangeType:
+			v = x.X
+		case *ssa.Convert:
+			v = x.X
+		default:
+			return v
+		}
+	}
+}
+
+// oneAppendPerRange: "" when the slice value arr (as seen after the loop) starts empty and is extended by exactly one
+// append, executed on every iteration of the innermost loop it sits in, and that loop ranges over the collection m.
+func (w *World) oneAppendPerRange(arr, m ssa.Value) string {
+	// collect the web of slice values: phis and appends
+	var appends []*ssa.Call
+	var inits []ssa.Value
+	seen := map[ssa.Value]bool{}
+	var walk func(v ssa.Value)
+	walk = func(v ssa.Value) {
+		v = stripConv(v)
+		if seen[v] {
+			return
+		}
+		seen[v] = true
+		switch x := v.(type) {
+		case *ssa.Phi:
+			for _, e := range x.Edges {
+				walk(e)
+			}
+		case *ssa.Call:
+			if b, ok := x.Call.Value.(*ssa.Builtin); ok && b.Name() == "append" {
+				appends = append(appends, x)
+				walk(x.Call.Args[0])
+				return
+			}
+			inits = append(inits, v)
+		case *ssa.Slice:
+			walk(x.X)
+		default:
+			inits = append(inits, v)
+		}
+	}
+	walk(arr)
+	for _, in := range inits {
+		ms, ok := in.(*ssa.MakeSlice)
+		if !ok {
+			if _, isAlloc := in.(*ssa.Alloc); isAlloc {
+				continue // make with constant size lowered to an array; length checked below through Slice
+			}
+			return "it does not start as a fresh empty slice (`" + shortCond(render(in)) + "`)"
+		}
+		if l, h, k := w.intBound(ms.Len, ms); !k || l != 0 || h != 0 {
+			return "it does not start empty"
+		}
+	}
+	if len(appends) != 1 {
+		return fmt.Sprintf("%d append sites extend it", len(appends))
+	}
+	ap := appends[0]
+	// exactly one element per append: the variadic slice holds one value
+	if sl, ok := ap.Call.Args[1].(*ssa.Slice); ok {
+		if l, h, k := w.lenBound(sl, ap); !k || l != 1 || h != 1 {
+			return "an append adds a number of elements other than one"
+		}
+	} else {
+		return "an append adds a whole slice"
+	}
+	hdr := loopHeaderOf(ap.Block())
+	if hdr == nil {
+		return "the append is not in a loop"
+	}
+	// the loop is driven by range over m
+	isRange := false
+	for _, ins := range hdr.Instrs {
+		if nx, ok := ins.(*ssa.Next); ok {
+			if rg, ok := nx.Iter.(*ssa.Range); ok && render(rg.X) == render(m) {
+				isRange = true
+			}
+		}
+	}
+	if !isRange {
+		return "the append sits in a loop that does not range over `" + shortCond(render(m)) + "` (a nested or different loop)"
+	}
+	// executed on every iteration: dominates every back edge source
+	for _, p := range hdr.Preds {
+		if hdr.Dominates(p) && !ap.Block().Dominates(p) {
+			return "some iteration of the loop skips the append"
+		}
+	}
+	return ""
 }
